@@ -26,8 +26,11 @@ import (
 	"github.com/ethereum/go-ethereum/crypto"
 
 	"github.com/vechain/thor/v2/block"
+	"github.com/vechain/thor/v2/builtin"
+	"github.com/vechain/thor/v2/consensus/upgrade/galactica"
 	"github.com/vechain/thor/v2/genesis"
 	"github.com/vechain/thor/v2/packer"
+	"github.com/vechain/thor/v2/runtime"
 	"github.com/vechain/thor/v2/test/testchain"
 	"github.com/vechain/thor/v2/thor"
 	"github.com/vechain/thor/v2/trie"
@@ -80,6 +83,12 @@ type world struct {
 	pool  *txpool.TxPool
 	made  time.Time
 	gen   []*tx.Transaction // generated txs, in order
+	limit int
+	// model prediction for the wash about to run (sequential driver only): published hashes, removed hash:reason
+	predict  bool
+	predPub  []string
+	predRm   []string
+	predOK   bool
 }
 
 func newWorld(limit, lpa int) *world {
@@ -107,7 +116,7 @@ func newWorld(limit, lpa int) *world {
 		}
 	}
 	p := txpool.New(c.Repo(), c.Stater(), txpool.Options{Limit: limit, LimitPerAccount: lpa, MaxLifetime: time.Hour}, &forkCfg)
-	return &world{chain: c, pool: p, made: time.Now()}
+	return &world{chain: c, pool: p, made: time.Now(), limit: limit}
 }
 
 func (w *world) close() { w.pool.Close() }
@@ -288,11 +297,11 @@ func modelStep(prev, cur *snap, op string, lpa int, addErr error) string {
 		old, was := prev.objs[h]
 		if !was {
 			if op == "fill" {
-				fills = append(fills, hx32(h), hxA(o.Origin), hxAp(o.Delegator), hx.U(uint64(o.TimeAdded)))
+				fills = append(fills, hx32(h), hxA(o.Origin), hxAp(o.Delegator), hx.U(uint64(o.TimeAdded)), hx.B(o.Local))
 				continue
 			}
-			r := ask(fmt.Sprintf("add %s %s %s %s %s %s %s %s %x %s", hx32(h), hxA(o.Origin), hxAp(o.Delegator), hx.B(o.Executable),
-				hxAp(o.Payer), hxBig(o.Cost), hxBig(o.PriorityGasPrice), hx.U(uint64(o.TimeAdded)), lpa, "ffffffffffffffffffffffffffffffffffffffff"))
+			r := ask(fmt.Sprintf("add %s %s %s %s %s %s %s %s %x %s %s", hx32(h), hxA(o.Origin), hxAp(o.Delegator), hx.B(o.Executable),
+				hxAp(o.Payer), hxBig(o.Cost), hxBig(o.PriorityGasPrice), hx.U(uint64(o.TimeAdded)), lpa, "ffffffffffffffffffffffffffffffffffffffff", hx.B(o.Local)))
 			if r != "ok" {
 				return fmt.Sprintf("the pool admitted %v but the model's Add answers %q", o.ID, r)
 			}
@@ -403,6 +412,222 @@ func (w *world) checkExecutables(s *snap) (class, summary string) {
 	return "", ""
 }
 
+// ---------------------------------------------------------------- wash: model prediction from real per-object verdicts
+
+// preWash asks the model what the wash about to run will publish and remove, given the verdict of the REAL Evaluate
+// for every pooled object on the current head (through VerifEvaluate) and the payers' real energy.
+func (w *world) preWash() {
+	w.predOK = false
+	if !w.predict {
+		return
+	}
+	s := w.snapshot()
+	byHash := map[thor.Bytes32]*tx.Transaction{}
+	for _, t := range w.pool.Dump() {
+		byHash[t.Hash()] = t
+	}
+	head := w.chain.Repo().BestBlockSummary()
+	st := w.chain.Stater().NewState(head.Root())
+	payers := map[thor.Address]bool{}
+	var toks []string
+	for h, o := range s.objs {
+		t := byHash[h]
+		if t == nil {
+			return
+		}
+		exe, payer, cost, pgp, err := w.pool.VerifEvaluate(t, o.Executable)
+		v := "N"
+		switch {
+		case err != nil:
+			v = "E1"
+		case exe && payer != nil:
+			v = fmt.Sprintf("Y,%s,%s,%s", hxA(*payer), hxBig(cost), hxBig(pgp))
+			payers[*payer] = true
+		case exe:
+			v = "Y"
+		}
+		if o.Payer != nil {
+			payers[*o.Payer] = true
+		}
+		toks = append(toks, fmt.Sprintf("%s:0:0:%s", hx32(h), v))
+	}
+	sort.Strings(toks)
+	var en []string
+	for a := range payers {
+		e, err := builtin.Energy.Native(st, head.Header.Timestamp()+thor.BlockInterval()).Get(a)
+		if err != nil {
+			return
+		}
+		en = append(en, hxA(a)+"="+hxBig(e))
+	}
+	sort.Strings(en)
+	ans := ask(fmt.Sprintf("wash %d %s | %s", w.limit, strings.Join(toks, " "), strings.Join(en, " ")))
+	parts := strings.SplitN(ans, " | rm", 2)
+	w.predPub = strings.Fields(strings.TrimPrefix(parts[0], "pub"))
+	w.predRm = nil
+	if len(parts) == 2 {
+		w.predRm = strings.Fields(parts[1])
+	}
+	w.predOK = true
+}
+
+// compareWash: the real wash against the model's prediction
+func (w *world) compareWash(prev, cur *snap) string {
+	if !w.predOK {
+		return ""
+	}
+	byID := map[thor.Bytes32]thor.Bytes32{}
+	for h, o := range cur.objs {
+		byID[o.ID] = h
+	}
+	// published order (by hash; two pooled txs with one id are ambiguous in Executables(): skip those cases)
+	var realPub []string
+	ids := map[thor.Bytes32]int{}
+	for _, o := range cur.objs {
+		ids[o.ID]++
+	}
+	ambiguous := false
+	for _, t := range w.pool.Executables() {
+		if ids[t.ID()] > 1 {
+			ambiguous = true
+		}
+		realPub = append(realPub, hx32(t.Hash()))
+	}
+	if !ambiguous && strings.Join(realPub, " ") != strings.Join(w.predPub, " ") {
+		return fmt.Sprintf("published list differs: model [%s], implementation [%s]", strings.Join(w.predPub, " "), strings.Join(realPub, " "))
+	}
+	realRm := map[string]bool{}
+	for h := range prev.objs {
+		if _, still := cur.objs[h]; !still {
+			realRm[hx32(h)] = true
+		}
+	}
+	flex := 0
+	for _, hr := range w.predRm {
+		p := strings.SplitN(hr, ":", 2)
+		switch p[1] {
+		case "lim1n", "lim2", "lim3":
+			flex++ // which non-executables are displaced depends on Go's map iteration order
+		default:
+			if !realRm[p[0]] {
+				return fmt.Sprintf("model removes %s (%s) but the implementation keeps it", p[0], p[1])
+			}
+			delete(realRm, p[0])
+		}
+	}
+	if len(realRm) != flex {
+		left := []string{}
+		for h := range realRm {
+			left = append(left, h)
+		}
+		sort.Strings(left)
+		return fmt.Sprintf("the implementation removed %v beyond what the model's reasons cover (model expects %d displaced non-executables)", left, flex)
+	}
+	return ""
+}
+
+// ---------------------------------------------------------------- Evaluate / Adopt transcriptions against the real ones
+
+func (w *world) admissionCheck(ctx *hx.Ctx, t *tx.Transaction) string {
+	resolved, err := runtime.ResolveTransaction(t)
+	if err != nil {
+		return ""
+	}
+	head := w.chain.Repo().BestBlockSummary()
+	next := head.Header.Number() + 1
+	ch := w.chain.Repo().NewChain(head.Header.ID())
+	known, err := ch.HasTransaction(t.ID(), t.BlockRef().Number())
+	if err != nil {
+		return ""
+	}
+	depTok, depSt := "-", "-"
+	if d := t.DependsOn(); d != nil {
+		depTok = hx32(*d)
+		meta, err := ch.GetTransactionMeta(*d)
+		switch {
+		case err != nil && w.chain.Repo().IsNotFound(err):
+			depSt = "n"
+		case err != nil:
+			return ""
+		default:
+			depSt = hx.B(meta.Reverted)
+		}
+	}
+	baseFee := galactica.CalcBaseFee(head.Header, &forkCfg)
+	buy := func(tm uint64) (feeOK, energyOK bool) {
+		_, _, _, _, _, err := resolved.BuyGas(w.chain.Stater().NewState(head.Root()), tm, baseFee)
+		if err == nil {
+			return true, true
+		}
+		if strings.Contains(err.Error(), "base fee") {
+			return false, true
+		}
+		return true, false
+	}
+	nextTime := head.Header.Timestamp() + thor.BlockInterval()
+	fee1, en1 := buy(nextTime)
+	var flow *packer.Flow
+	for i := range dev[:10] {
+		f, err := packer.New(w.chain.Repo(), w.chain.Stater(), dev[i].Address, nil, &forkCfg, 0).Schedule(head, nextTime)
+		if err == nil && (flow == nil || f.When() < flow.When()) {
+			flow = f
+		}
+	}
+	if flow == nil {
+		return ""
+	}
+	_, en2 := buy(flow.When())
+	origin, _ := t.Origin()
+	deleg, derr := t.Delegator()
+	line := fmt.Sprintf("adm %x %x %x %x %x %x %s %s | %s %x %x %x %s %s %s %s %s %s %s %s | %s %s | 0 %x %x %s 0 0 0 -",
+		next, head.Header.GasLimit(), nextTime, forkCfg.VIP191, forkCfg.GALACTICA, forkCfg.BLOCKLIST, hx.B(known), depSt,
+		hx32(t.ID()), t.Gas(), t.BlockRef().Number(), t.Expiration(), hx.B(t.Type() == tx.TypeLegacy), hx.B(t.Features().IsDelegated()),
+		hx.B(t.Features()&^tx.DelegationFeature != 0), depTok, hx.B(t.ChainTag() == w.chain.Repo().ChainTag()),
+		hx.B(thor.IsOriginBlocked(origin)), hx.B(derr == nil), hx.B(deleg != nil && thor.IsOriginBlocked(*deleg)),
+		hx.B(fee1), hx.B(en1), head.Header.GasLimit(), flow.When(), hx.B(en2))
+	f := strings.Fields(ask(line))
+	// the real verdicts
+	exe, _, _, _, eerr := w.pool.VerifEvaluate(t, false)
+	realEv := "notyet"
+	switch {
+	case eerr != nil:
+		realEv = "err"
+	case exe:
+		realEv = "exec"
+	}
+	modelEv := f[0]
+	if strings.HasPrefix(modelEv, "err:") {
+		ctx.Cov.Count("evaluate_" + modelEv)
+		modelEv = "err"
+	} else {
+		ctx.Cov.Count("evaluate_" + modelEv)
+	}
+	if modelEv != realEv {
+		return fmt.Sprintf("Evaluate transcription: model %s, implementation %s (%v) for tx %v", f[0], realEv, eerr, t.ID())
+	}
+	aerr := flow.Adopt(t)
+	realAd := "other"
+	switch {
+	case aerr == nil:
+		realAd = "ok"
+	case packer.IsBadTx(aerr):
+		realAd = "bad"
+	case packer.IsTxNotAdoptableNow(aerr):
+		realAd = "notnow"
+	case packer.IsGasLimitReached(aerr):
+		realAd = "gaslimit"
+	}
+	modelAd := f[1]
+	if modelAd == "known" || modelAd == "forever" {
+		modelAd = "other"
+	}
+	ctx.Cov.Count("adopt_" + f[1])
+	if modelAd != realAd {
+		return fmt.Sprintf("Adopt transcription: model %s, implementation %s (%v) for tx %v", f[1], realAd, aerr, t.ID())
+	}
+	return ""
+}
+
 // ---------------------------------------------------------------- sequential driver
 
 func (w *world) apply(op *Op) (string, error) {
@@ -440,6 +665,7 @@ func (w *world) apply(op *Op) (string, error) {
 		w.pool.Fill(txs)
 		return "fill", nil
 	case "wash":
+		w.preWash()
 		_, _, err := w.pool.VerifWash(false)
 		return "wash", err
 	case "basefee":
@@ -490,6 +716,7 @@ func (w *world) apply(op *Op) (string, error) {
 				return "head", nil
 			}
 		}
+		w.preWash()
 		_, _, err := w.pool.VerifWash(true)
 		return "wash", err
 	}
@@ -499,6 +726,7 @@ func (w *world) apply(op *Op) (string, error) {
 func runSeq(ctx *hx.Ctx, sc *SeqCase) (class, summary string, found bool, at int) {
 	w := newWorld(sc.Limit, sc.LPA)
 	defer w.close()
+	w.predict = true
 	ask("reset")
 	prev := w.snapshot()
 	for i := range sc.Ops {
@@ -507,8 +735,14 @@ func runSeq(ctx *hx.Ctx, sc *SeqCase) (class, summary string, found bool, at int
 			ctx.Cov.Count("seq_truncated_before_housekeeping_tick")
 			return "", "", false, i
 		}
+		nGen := len(w.gen)
 		kind, err := w.apply(&sc.Ops[i])
 		cur := w.snapshot()
+		if kind == "add" && len(w.gen) > nGen {
+			if msg := w.admissionCheck(ctx, w.gen[len(w.gen)-1]); msg != "" {
+				return "admission-transcription", msg, false, i
+			}
+		}
 		ctx.Cov.Count("op_" + sc.Ops[i].Kind)
 		if err != nil {
 			ctx.Cov.Count("op_rejected")
@@ -520,6 +754,12 @@ func runSeq(ctx *hx.Ctx, sc *SeqCase) (class, summary string, found bool, at int
 		}
 		if msg := cur.propertyCheck(); msg != "" {
 			return "accounting-drift-" + kind, msg, true, i
+		}
+		if kind == "wash" && err == nil && sc.Ops[i].Kind != "basefee" {
+			if msg := w.compareWash(prev, cur); msg != "" {
+				return "wash-model", msg, false, i
+			}
+			ctx.Cov.Count("wash_compared_with_model")
 		}
 		if msg := modelStep(prev, cur, kind, sc.LPA, err); msg != "" {
 			return "model-maps-" + kind, msg, false, i
@@ -585,6 +825,9 @@ func genOp(r *hx.Rand, nGen int) Op {
 	if r.Chance(1, 10) && nGen > 0 {
 		op.Redeleg = 1 + r.Intn(nGen)
 		op.Deleg = 1 + r.Intn(10)
+	}
+	if r.Chance(1, 25) {
+		op.Gas = 41_000_000 // above the block gas limit: never includable
 	}
 	if r.Chance(1, 10) {
 		// a payer near its limit: huge gas so that few such txs exhaust the energy the pool will accept
@@ -787,11 +1030,11 @@ func main() {
 		}
 		rnd := hx.NewRand(ctx.Seed)
 		rs := rnd.Fork(1)
-		for i := 0; i < ctx.Scale(150, 6000); i++ {
+		for i := 0; i < ctx.Scale(500, 8000); i++ {
 			doSeq(ctx, genSeq(rs, 20+rs.Intn(60)))
 		}
 		rc := rnd.Fork(2)
-		for i := 0; i < ctx.Scale(20, 600); i++ {
+		for i := 0; i < ctx.Scale(40, 600); i++ {
 			sc := genSeq(rc, 150+rc.Intn(150))
 			sc.Kind = "conc"
 			doConc(ctx, sc)
